@@ -49,7 +49,8 @@ def standard(tree, rng=None, hostile_content=True, specials=False):
         w("evilmap/gophermap",
           b"0climb\t/../secret.txt\n"
           b"0climb2\t../../secret.txt\n"
-          b"1climbdir\t/..\n")
+          b"1climbdir\t/..\n"
+          b"0sibling of the root\tURL:mailto:a\n")     # no leading slash: root + selector names a sibling of the root
         w("evillinks/.Links", b"Name=climb\nType=0\nPath=/../secret.txt\n\n"
                               b"Name=climbrel\nType=0\nPath=../../secret.txt\n")
         w("evillinks/x.txt", b"x\n")
